@@ -200,7 +200,7 @@ def concrete_check(spec, vals, w=None):
     clean()
     try:
         T.PyAlg.overflow = False
-    T.PyAlg.fscale = 0.0
+        T.PyAlg.fscale = 0.0
         rc = _script.ref_cases(w or _script.plain_env(), text, lv, False)
         if rc[0][1][0] != "ok" or not rc[0][2].dom.ok or T.PyAlg.overflow:
             return "skip"
